@@ -135,6 +135,13 @@ class PGen:
             lambda: ["ProcessXor", ["bin", "|", E(), 1], B] if False else ["RawCopy", X()], lambda: ["Bitwise", ["BitsInteger", ["bin", "*", ["bin", "+", ["bin", "&", E(), 1], 1], 8], False, r.random() < 0.3]],
             lambda: ["StopIf", ["bin", "==", E(), 99]], lambda: ["Optional", ["Const", tag(b"\xfe"), None]] if False else ["Select", [["Const", tag(b"\xfe"), None], B]],
             lambda: ["RestreamData", tag(b"\x01\x02"), ["name", "Int16ub"]],
+            # padding with a pattern other than zero bytes
+            lambda: ["Padded", ["bin", "+", E(), 3], X(), tag(b"\xff")], lambda: ["Padding", ["bin", "+", ["bin", "&", E(), 3], 1], tag(b"*")], lambda: ["Padded", 4, B, tag(b"\x01")],
+            lambda: ["Aligned", 4, X(), tag(b"\xaa")],
+            # constants whose encoding is not the bare value (a wrapping sub-construct); a FocusedSeq whose selected member is named by an expression
+            lambda: ["Const", tag(b"ab"), ["NullTerminated", ["name", "GreedyBytes"]]], lambda: ["Const", tag(b"x"), ["Prefixed", B, ["name", "GreedyBytes"], False]],
+            lambda: ["Const", tag(b"AB"), ["Padded", 4, ["Bytes", 2]]], lambda: ["Const", 300, ["name", "VarInt"]], lambda: ["Const", "a", ["Enum", B, [["a", 1], ["b", 2]]]],
+            lambda: ["FocusedSeq", ["this", "_", "_params", "sel"], [["a", ["Default", B, 9]], ["num", ["Default", B, ["bin", "&", EN(), 7]]], [None, ["Const", tag(b"\x01"), None]]]],
             # structures all of whose members build from nothing (their value may be left out: the enclosing structure hands None down)
             lambda: ["Struct", [["magic", ["Const", tag(b"x"), None]], ["c", ["Computed", EN()]], [None, ["Padding", 1]]]],
             lambda: ["Sequence", [[None, ["Const", tag(b"A"), None]], ["d", ["Default", B, ["bin", "&", EN(), 3]]], [None, ["Padding", 1]]]],
@@ -388,6 +395,16 @@ def run_program(ctx, prog, kw, ins, sample=False):
                 ctx.violation("build-derived:%s:%s" % ("compiled-raises-" + bc2[1] if bc2[0] != "ok" else "value-differs", derived_kinds(prog)),
                               "derived members omitted: interpreter builds %s ; compiled %s (value %r)" % (bi2[1].hex()[:120], ("raised %s: %s" % (bc2[1], bc2[2])) if bc2[0] != "ok" else "builds " + bc2[1].hex()[:120], strip(v2)), case)
                 return
+        # a constant member given another value: both implementations refuse it
+        for v3 in wrong_constants(prog, ri[1]):
+            bi3 = outcome(lambda: d.build(v3, **kw))
+            if bi3[0] == "exc" and bi3[1] == "ConstError":
+                ctx.ev()
+                ctx.count("comparisons_wrong_constant_supplied")
+                bc3 = outcome(lambda: c.build(v3, **kw))
+                if bc3[0] == "ok":
+                    ctx.violation("build:compiled-accepts-wrong-constant", "a constant member was given another value: the interpreter raises ConstError, compiled code builds %s (value %r)" % (bc3[1].hex()[:80], strip(v3)), case)
+                    return
     # sizeof under a sequence of keyword contexts on the same compiled instance (the first context is asked again at the end)
     answers = set()
     for j, kw2 in enumerate([kw] + [{"k": x} for x in (3, 0, 2, 1)] + [{}, kw]):
@@ -450,6 +467,33 @@ def blank_derived(r, v):
     if k == "Array" and isinstance(v, list):
         return [blank_derived(r[2], x) for x in v]
     return v
+
+
+def wrong_constants(r, v, limit=4):
+    """variants of the value in which one Const member (depth <= 2) holds a value other than its constant"""
+    out = []
+
+    def other(c):
+        c = untag(c) if isinstance(c, (dict, list)) else c
+        return (c + b"?") if isinstance(c, bytes) else (c + 1) if isinstance(c, int) and not isinstance(c, bool) else (c + "?") if isinstance(c, str) else None
+
+    def rec(r, v, put, depth):
+        if len(out) >= limit or depth > 2:
+            return
+        if r[0] == "Struct" and isinstance(v, dict):
+            for nm, m in r[1]:
+                if nm is None:
+                    continue
+                if m[0] == "Const" and other(m[1]) is not None:
+                    out.append(put(dict(v, **{nm: other(m[1])})))
+                elif nm in v:
+                    rec(m, v[nm], lambda x, nm=nm: put(dict(v, **{nm: x})), depth + 1)
+        elif r[0] == "Sequence" and isinstance(v, list):
+            for i, ((nm, m), x) in enumerate(zip(r[1], v)):
+                if m[0] == "Const" and other(m[1]) is not None:
+                    out.append(put(list(v[:i]) + [other(m[1])] + list(v[i + 1:])))
+    rec(r, v, lambda x: x, 0)
+    return out[:limit]
 
 
 def blank_one_by_one(r, v, limit=8):
@@ -546,7 +590,7 @@ def run(ctx):
         g = PGen(rng)
         g.derived_program = (i % 4 == 1)
         prog = g.program() if i % 4 else sized_program(rng)
-        kw = {"k": rng.choice([0, 1, 2, 3])}
+        kw = {"k": rng.choice([0, 1, 2, 3]), "sel": rng.choice(["a", "num"])}
         run_program(ctx, prog, kw, inputs(rng, nin), sample=(i < 2 and ctx.index < 2))
 
 
